@@ -204,6 +204,22 @@ theorem agile_segments_partition (N : Nat) :
     unfold decryptPackageSegs
     rw [if_pos hL]
 
+/-- *agile documents decrypt to valid packages* (output length of the segment loop, every cipher-text
+length): the bytes `decryptPackage` appends over all segments — each chunk zero-padded to the AES block —
+add up to the cipher-text length `N` rounded up to 16: never fewer bytes than the cipher text holds
+(so a declared package size `≤ N` is always covered), fewer than `N + 16`, a whole number of blocks,
+and exactly `N` for block-aligned cipher text (what a conforming encryptor writes). -/
+theorem agile_output_length (N : Nat) :
+    ∃ segs, decryptPackageSegs (N + packageOffset) = .ok segs ∧
+      outLen segs = pad16 N ∧ N ≤ outLen segs ∧ outLen segs < N + 16 ∧ outLen segs % 16 = 0 ∧
+      (N % 16 = 0 → outLen segs = N) := by
+  refine ⟨specSegs N, (agile_segments_partition N).1, ?_⟩
+  have h := outLen_segs N ((N + (packageEncryptionChunkSize - 1)) / packageEncryptionChunkSize) 0 (by omega)
+  rw [← specSegs_eq, Nat.mul_zero, Nat.sub_zero] at h
+  rw [h]
+  unfold pad16
+  omega
+
 /-- *documents protected with agile encryption decrypt to valid packages* (data flow, full
 strength): for every CBC cipher that is a length-preserving bijection on block-aligned messages for
 each IV index, and every plaintext, `decryptPackage` — segment loop, zero padding, decryption of
